@@ -99,3 +99,66 @@ func VerifC13_PrinterFrozen() {
 	zzverif.Assert(err == nil, "modular-model-prints")
 	zzverif.Reach("printed")
 }
+
+// VerifC14_TypeOrder: three types, each attributed to a (symbolic) module or
+// not, printed in every order of the type definitions: one text.
+func VerifC14_TypeOrder() {
+	n := zzverif.Param("N", 1)
+	var tds []*openfgav1.TypeDefinition
+	anyModule := false
+	var names []string
+	for i := 0; i < 3; i++ {
+		name := zzverif.Str("type", 1, n, verifNameAlphabet)
+		for _, o := range names {
+			zzverif.Assume(name != o)
+		}
+		names = append(names, name)
+		td := &openfgav1.TypeDefinition{Type: name}
+		if zzverif.Choose("attributed", 2) == 1 {
+			mod := zzverif.Str("module", 1, n, verifFileAlphabet)
+			td.Metadata = &openfgav1.Metadata{Module: mod, SourceInfo: verifSrc(mod, zzverif.Str("file", 0, n, verifFileAlphabet))}
+			anyModule = true
+		}
+		tds = append(tds, td)
+	}
+	zzverif.Assume(anyModule)
+	perms := [][3]int{{0, 1, 2}, {0, 2, 1}, {1, 0, 2}, {1, 2, 0}, {2, 0, 1}, {2, 1, 0}}
+	p := perms[1+zzverif.Choose("permutation", 5)]
+	src := zzverif.Choose("source-info", 2) == 1
+	a, errA := TransformJSONProtoToDSL(&openfgav1.AuthorizationModel{SchemaVersion: "1.2", TypeDefinitions: tds}, WithIncludeSourceInformation(src))
+	b, errB := TransformJSONProtoToDSL(&openfgav1.AuthorizationModel{SchemaVersion: "1.2", TypeDefinitions: []*openfgav1.TypeDefinition{tds[p[0]], tds[p[1]], tds[p[2]]}}, WithIncludeSourceInformation(src))
+	zzverif.Assert(errA == nil && errB == nil, "modular-model-prints")
+	zzverif.Assert(a == b, "same-text-for-any-type-definition-order")
+	zzverif.Reach("printed")
+}
+
+// VerifC14_ManyRelations: a modular type with K relations in three
+// (module, file) groups: the documented order (unattributed first, then by
+// module and file, by name inside a group) whatever the map iteration order;
+// K goes beyond the size up to which Go's sort falls back to insertion sort.
+func VerifC14_ManyRelations() {
+	k := []int{5, 13, 14, 21}[zzverif.Choose("relations", 4)]
+	td := &openfgav1.TypeDefinition{Type: "doc", Relations: map[string]*openfgav1.Userset{},
+		Metadata: &openfgav1.Metadata{Module: "core", SourceInfo: verifSrc("core", "core.fga"), Relations: map[string]*openfgav1.RelationMetadata{}}}
+	groups := []struct{ module, file string }{{"", ""}, {"alpha", "a.fga"}, {"beta", "b.fga"}}
+	var want [3][]string
+	for i := 0; i < k; i++ {
+		name := "rel_" + string(rune('a'+(i*7)%26)) + string(rune('a'+i%26))
+		g := (i * 5) % 3
+		td.Relations[name] = verifComputed("x")
+		td.Metadata.Relations[name] = &openfgav1.RelationMetadata{Module: groups[g].module, SourceInfo: verifSrc(groups[g].module, groups[g].file)}
+		want[g] = append(want[g], name)
+	}
+	text, err := TransformJSONProtoToDSL(&openfgav1.AuthorizationModel{SchemaVersion: "1.2", TypeDefinitions: []*openfgav1.TypeDefinition{td}})
+	zzverif.Assert(err == nil, "modular-model-prints")
+	expected := "model\n  schema 1.2\n\ntype doc\n  relations"
+	for g := range want {
+		mSortStrings(want[g])
+		for _, n := range want[g] {
+			expected += "\n    define " + n + ": x"
+		}
+	}
+	expected += "\n"
+	zzverif.Assert(text == expected, "relations-in-documented-order")
+	zzverif.Reach("printed")
+}
